@@ -65,6 +65,8 @@ type vft struct {
 	err     error
 	elemOf  map[string]string // kind of the elements of a renamed slice
 	callees map[string]string // receiver method -> generated name (value-returning ones)
+	loopFall string           // what `continue` means in the innermost loop
+	constBool map[string]bool // locals whose value is known on the path being translated
 }
 
 func (t *vft) fail(format string, a ...any) string {
@@ -165,6 +167,16 @@ func (t *vft) expr(e ast.Expr) (string, string) {
 			if k == "addr" {
 				return "(is_keyper (d_config " + t.crecv + ") " + s + ")", "bool"
 			}
+		case strings.HasSuffix(fn, ".IsKeyper") && len(x.Args) == 1:
+			// a local that holds the instance's config
+			if se, ok := x.Fun.(*ast.SelectorExpr); ok {
+				if id, ok := se.X.(*ast.Ident); ok && t.kinds[id.Name] == "config" {
+					s, k := t.expr(x.Args[0])
+					if k == "addr" {
+						return "(is_keyper " + id.Name + " " + s + ")", "bool"
+					}
+				}
+			}
 		case t.eqVar != "" && fn == t.eqVar+".Equals" && len(x.Args) == 2:
 			a, ka := t.expr(x.Args[0])
 			b, kb := t.expr(x.Args[1])
@@ -212,6 +224,18 @@ func (t *vft) expr(e ast.Expr) (string, string) {
 			}
 			return s, "bool"
 		case token.GEQ, token.LEQ, token.LSS, token.GTR:
+			if ka == "nat" {
+				switch x.Op {
+				case token.GEQ:
+					return "(Nat.leb " + b + " " + a + ")", "bool"
+				case token.LEQ:
+					return "(Nat.leb " + a + " " + b + ")", "bool"
+				case token.LSS:
+					return "(Nat.ltb " + a + " " + b + ")", "bool"
+				case token.GTR:
+					return "(Nat.ltb " + b + " " + a + ")", "bool"
+				}
+			}
 			if ka == "Z" {
 				switch x.Op {
 				case token.GEQ:
@@ -245,6 +269,97 @@ func vfEndsInReturn(ss []ast.Stmt) bool {
 	}
 	_, ok := ss[len(ss)-1].(*ast.ReturnStmt)
 	return ok
+}
+
+// vfTailAlwaysReturns: the statements end in a return and contain no `continue`, so a write made
+// before them is part of the returned value and cannot be carried into another iteration.
+func vfTailAlwaysReturns(ss []ast.Stmt) bool {
+	if !vfEndsInReturn(ss) {
+		return false
+	}
+	cont := false
+	for _, st := range ss {
+		ast.Inspect(st, func(n ast.Node) bool {
+			if b, ok := n.(*ast.BranchStmt); ok && b.Tok == token.CONTINUE {
+				cont = true
+			}
+			return !cont
+		})
+	}
+	return !cont
+}
+
+// constCond: the value of a condition that is a local with a known value, or its negation.
+func (t *vft) constCond(e ast.Expr) (bool, bool) {
+	switch x := e.(type) {
+	case *ast.ParenExpr:
+		return t.constCond(x.X)
+	case *ast.Ident:
+		v, ok := t.constBool[x.Name]
+		return v, ok
+	case *ast.UnaryExpr:
+		if x.Op == token.NOT {
+			v, ok := t.constCond(x.X)
+			return !v, ok
+		}
+	}
+	return false, false
+}
+
+func vfEndsInContinue(ss []ast.Stmt) bool {
+	if len(ss) == 0 {
+		return false
+	}
+	b, ok := ss[len(ss)-1].(*ast.BranchStmt)
+	return ok && b.Tok == token.CONTINUE && b.Label == nil
+}
+
+// indexLoop recognises `for i := 0; i < len(X); i++ { body }` and returns the equivalent
+// `for i, i_elem := range X { body }`; reads X[i] in the body become i_elem.
+func (t *vft) indexLoop(s *ast.ForStmt) *ast.RangeStmt {
+	as, ok := s.Init.(*ast.AssignStmt)
+	if !ok || as.Tok != token.DEFINE || len(as.Lhs) != 1 || len(as.Rhs) != 1 || exprText(as.Rhs[0]) != "0" {
+		return nil
+	}
+	iv, ok := as.Lhs[0].(*ast.Ident)
+	if !ok {
+		return nil
+	}
+	cond, ok := s.Cond.(*ast.BinaryExpr)
+	if !ok || cond.Op != token.LSS || exprText(cond.X) != iv.Name {
+		return nil
+	}
+	call, ok := cond.Y.(*ast.CallExpr)
+	if !ok || exprText(call.Fun) != "len" || len(call.Args) != 1 {
+		return nil
+	}
+	inc, ok := s.Post.(*ast.IncDecStmt)
+	if !ok || inc.Tok != token.INC || exprText(inc.X) != iv.Name {
+		return nil
+	}
+	// the body must not assign the index variable or the slice
+	bad := false
+	ast.Inspect(s.Body, func(n ast.Node) bool {
+		switch x := n.(type) {
+		case *ast.AssignStmt:
+			for _, l := range x.Lhs {
+				if exprText(l) == iv.Name || exprText(l) == exprText(call.Args[0]) {
+					bad = true
+				}
+			}
+		case *ast.IncDecStmt:
+			if exprText(x.X) == iv.Name {
+				bad = true
+			}
+		}
+		return !bad
+	})
+	if bad {
+		return nil
+	}
+	elem := iv.Name + "_elem"
+	t.rename[exprText(call.Args[0])+"["+iv.Name+"]"] = elem
+	return &ast.RangeStmt{Key: ast.NewIdent(iv.Name), Value: ast.NewIdent(elem), Tok: token.DEFINE, X: call.Args[0], Body: s.Body}
 }
 
 func vfContainsReturn(n ast.Node) bool {
@@ -299,16 +414,6 @@ func (t *vft) block(ss []ast.Stmt, fall string, search bool, wrap func(string) s
 							return t.fail("call of unknown method %s", se.Sel.Name)
 						}
 						val, okv := exprText(s.Lhs[0]), exprText(s.Lhs[1])
-						if i+1 >= len(ss) {
-							return t.fail("(value, ok) call not followed by a test")
-						}
-						is, isIf := ss[i+1].(*ast.IfStmt)
-						if !isIf || is.Init != nil || is.Else != nil || !vfEndsInReturn(is.Body.List) {
-							return t.fail("(value, ok) call not followed by `if !ok { ... return }`")
-						}
-						if ue, isU := is.Cond.(*ast.UnaryExpr); !isU || ue.Op != token.NOT || exprText(ue.X) != okv {
-							return t.fail("(value, ok) call not followed by `if !ok { ... return }`")
-						}
 						args := []string{}
 						for _, a := range call.Args {
 							as, _ := t.expr(a)
@@ -319,15 +424,27 @@ func (t *vft) block(ss []ast.Stmt, fall string, search bool, wrap func(string) s
 							t.enums = append(t.enums, "enum_Votes_1")
 							enumArgs = " enum_Votes_1"
 						}
-						fmt.Fprintf(&sb, "%smatch %s %s%s %s with\n", ind, gen, t.crecv, enumArgs, strings.Join(args, " "))
-						fmt.Fprintf(&sb, "%s| None =>\n%s\n", ind, t.block(is.Body.List, "", false, wrap, ind+"  "))
+						// a (value, ok) result is an option: the rest of the block is translated
+						// once for ok = false (the value is not bound there: a use of it on that
+						// path does not compile) and once for ok = true
+						if t.constBool == nil {
+							t.constBool = map[string]bool{}
+						}
+						t.constBool[okv] = false
+						delete(t.kinds, val)
+						noneS := t.block(ss[i+1:], fall, search, wrap, ind+"  ")
+						t.constBool[okv] = true
 						t.kinds[val] = "nat"
-						fmt.Fprintf(&sb, "%s| Some %s =>\n%s\n%send", ind, val, t.block(ss[i+2:], fall, search, wrap, ind+"  "), ind)
+						someS := t.block(ss[i+1:], fall, search, wrap, ind+"  ")
+						delete(t.constBool, okv)
+						fmt.Fprintf(&sb, "%smatch %s %s%s %s with\n", ind, gen, t.crecv, enumArgs, strings.Join(args, " "))
+						fmt.Fprintf(&sb, "%s| None =>\n%s\n", ind, noneS)
+						fmt.Fprintf(&sb, "%s| Some %s =>\n%s\n%send", ind, val, someS, ind)
 						return sb.String()
 					}
 				}
 			}
-			sb.WriteString(t.assign(s, search, ind))
+			sb.WriteString(t.assign(s, search && !vfTailAlwaysReturns(ss[i+1:]), ind))
 		case *ast.IncDecStmt:
 			ix, ok := s.X.(*ast.IndexExpr)
 			if !ok || s.Tok != token.INC {
@@ -337,7 +454,7 @@ func (t *vft) block(ss []ast.Stmt, fall string, search bool, wrap func(string) s
 			if !ok || t.kinds[id.Name] != "nmap" {
 				return t.fail("unsupported increment target")
 			}
-			if search {
+			if search && !vfTailAlwaysReturns(ss[i+1:]) {
 				return t.fail("write in a search loop at a point that can fall through")
 			}
 			k, kk := t.expr(ix.Index)
@@ -351,7 +468,7 @@ func (t *vft) block(ss []ast.Stmt, fall string, search bool, wrap func(string) s
 				return t.fail("unsupported statement")
 			}
 			if exprText(call.Fun) == t.recv+".SetVote" && len(call.Args) == 2 && t.rec == vfVoting {
-				if search {
+				if search && !vfTailAlwaysReturns(ss[i+1:]) {
 					return t.fail("write in a search loop at a point that can fall through")
 				}
 				a, ka := t.expr(call.Args[0])
@@ -364,9 +481,6 @@ func (t *vft) block(ss []ast.Stmt, fall string, search bool, wrap func(string) s
 				return t.fail("unsupported call statement %s", exprText(call.Fun))
 			}
 		case *ast.IfStmt:
-			if s.Else != nil || !vfEndsInReturn(s.Body.List) {
-				return t.fail("only `if c { ...; return }` without else is understood")
-			}
 			if s.Init != nil {
 				as, ok := s.Init.(*ast.AssignStmt)
 				if !ok {
@@ -374,12 +488,75 @@ func (t *vft) block(ss []ast.Stmt, fall string, search bool, wrap func(string) s
 				}
 				sb.WriteString(t.assign(as, search, ind))
 			}
+			if v, known := t.constCond(s.Cond); known {
+				var live []ast.Stmt
+				if v {
+					live = s.Body.List
+				} else if s.Else != nil {
+					eb, ok := s.Else.(*ast.BlockStmt)
+					if !ok {
+						return t.fail("else-if chains are not understood")
+					}
+					live = eb.List
+				}
+				if vfEndsInReturn(live) || vfEndsInContinue(live) {
+					return sb.String() + t.block(live, "", search, wrap, ind)
+				}
+				return sb.String() + t.block(append(append([]ast.Stmt{}, live...), ss[i+1:]...), fall, search, wrap, ind)
+			}
 			c, kc := t.expr(s.Cond)
 			if kc != "bool" {
 				return t.fail("condition %s is not boolean", exprText(s.Cond))
 			}
-			fmt.Fprintf(&sb, "%sif %s then\n%s\n%selse\n%s", ind, c, t.block(s.Body.List, "", false, wrap, ind+"  "), ind, t.block(ss[i+1:], fall, search, wrap, ind))
+			// the statements after the if are translated once; a branch that does not return
+			// continues with that text (its own rebindings are in scope there)
+			saved := t.err
+			rest := t.block(ss[i+1:], fall, search, wrap, ind)
+			restErr := t.err
+			restOK := t.err == saved
+			if !restOK {
+				// an untranslatable remainder is only an error if some branch continues with it
+				t.err = saved
+			}
+			branch := func(body []ast.Stmt) string {
+				if vfEndsInReturn(body) || vfEndsInContinue(body) {
+					return t.block(body, "", false, wrap, ind+"  ")
+				}
+				if !restOK {
+					return t.fail("after `if %s`: %v", exprText(s.Cond), restErr)
+				}
+				return t.block(body, strings.TrimLeft(rest, " "), search, wrap, ind+"  ")
+			}
+			thenS := branch(s.Body.List)
+			elseS := rest
+			switch e := s.Else.(type) {
+			case nil:
+				if !restOK {
+					return t.fail("after `if %s`: %v", exprText(s.Cond), restErr)
+				}
+			case *ast.BlockStmt:
+				elseS = branch(e.List)
+			default:
+				return t.fail("else-if chains are not understood")
+			}
+			fmt.Fprintf(&sb, "%sif %s then\n%s\n%selse\n%s", ind, c, thenS, ind, elseS)
 			return sb.String()
+		case *ast.BranchStmt:
+			if s.Tok != token.CONTINUE || s.Label != nil || i != len(ss)-1 || t.loopFall == "" {
+				return t.fail("unsupported branch statement")
+			}
+			sb.WriteString(ind + t.loopFall)
+			return sb.String()
+		case *ast.ForStmt:
+			rs := t.indexLoop(s)
+			if rs == nil {
+				return t.fail("only `for i := 0; i < len(x); i++` index loops are understood")
+			}
+			nss := append(append([]ast.Stmt{}, ss[:i]...), rs)
+			nss = append(nss, ss[i+1:]...)
+			ss = nss
+			i--
+			continue
 		case *ast.RangeStmt:
 			if vfContainsReturn(s.Body) {
 				src, elemKind := t.rangeSource(s)
@@ -395,7 +572,10 @@ func (t *vft) block(ss []ast.Stmt, fall string, search bool, wrap func(string) s
 				if search {
 					return t.fail("nested search loops")
 				}
+				savedFall := t.loopFall
+				t.loopFall = "None"
 				body := t.block(s.Body.List, "None", true, func(v string) string { return "Some (" + wrap(v) + ")" }, ind+"  ")
+				t.loopFall = savedFall
 				rest := t.block(ss[i+1:], fall, false, wrap, ind)
 				keyb := key
 				if key != "_" {
@@ -500,7 +680,10 @@ func (t *vft) foldLoop(s *ast.RangeStmt, ind string) string {
 			t.kinds[val] = "nat"
 			pre += "let " + val + " := snd kv in "
 		}
+		savedFall := t.loopFall
+		t.loopFall = acc
 		body := t.block(s.Body.List, acc, false, func(v string) string { return t.fail("return in a fold loop") }, ind+"    ")
+		t.loopFall = savedFall
 		return fmt.Sprintf("%slet %s := fold_left (fun %s %s =>\n%s  %s\n%s) %s %s in\n", ind, acc, acc, binder, ind, pre, body, src, acc)
 	}
 	src, elemKind := t.rangeSource(s)
@@ -512,7 +695,10 @@ func (t *vft) foldLoop(s *ast.RangeStmt, ind string) string {
 	} else {
 		t.kinds[val] = elemKind
 	}
+	savedFall := t.loopFall
+	t.loopFall = acc
 	body := t.block(s.Body.List, acc, false, func(v string) string { return t.fail("return in a fold loop") }, ind+"    ")
+	t.loopFall = savedFall
 	return fmt.Sprintf("%slet %s := fold_left (fun %s %s =>\n%s) %s %s in\n", ind, acc, acc, val, body, src, acc)
 }
 
@@ -560,7 +746,7 @@ func (t *vft) assign(s *ast.AssignStmt, search bool, ind string) string {
 		if !ok {
 			return t.fail("unsupported definition")
 		}
-		if call, ok := s.Rhs[0].(*ast.CallExpr); ok && exprText(call.Fun) == "make" && len(call.Args) == 1 {
+		if call, ok := s.Rhs[0].(*ast.CallExpr); ok && exprText(call.Fun) == "make" && (len(call.Args) == 1 || len(call.Args) == 2) {
 			if mt, ok := call.Args[0].(*ast.MapType); ok && exprText(mt.Key) == "int" && exprText(mt.Value) == "int" {
 				t.kinds[id.Name] = "nmap"
 				return fmt.Sprintf("%slet %s := ([] : nmap) in\n", ind, id.Name)
